@@ -158,3 +158,113 @@ def check_first_elem(ctx, rule, funcs, why):
                       "validation instead of an issue. %s" % (norm(sub), name, reason, why),
                       desc="%s: `%s` — %s" % (f.short, norm(sub), reason))
     return n
+
+
+# ---------------------------------------------------------------------------------------------------------------
+# pandas: first/last row of a selection made with a boolean mask
+POS_ATTRS = ("index", "iloc", "iat", "values", "array")
+
+
+def _is_mask_selection(e):
+    """`X.loc[<mask>, ...]`, `X[<mask>]`, `X.loc[<mask>]` where the row selector is a comparison / boolean combination
+    of comparisons / a `.isin()` / `.isna()`-style call: the result may have no rows."""
+    if not isinstance(e, ast.Subscript):
+        return False
+    sel = e.slice
+    if isinstance(sel, ast.Tuple) and sel.elts:
+        sel = sel.elts[0]
+
+    def boolish(x):
+        if isinstance(x, ast.Compare):
+            return True
+        if isinstance(x, ast.BinOp) and isinstance(x.op, (ast.BitAnd, ast.BitOr)):
+            return boolish(x.left) or boolish(x.right)
+        if isinstance(x, ast.UnaryOp) and isinstance(x.op, ast.Invert):
+            return boolish(x.operand) or True
+        if isinstance(x, ast.Call) and call_name(x) in ("isin", "isna", "isnull", "notna", "notnull", "duplicated", "between",
+                                                       "startswith", "endswith", "contains", "match"):
+            return True
+        return False
+    return boolish(sel)
+
+
+def _nonempty_labels(test, name):
+    """Edge labels of a branch on `test` under which the frame `name` is known to have rows."""
+    if isinstance(test, ast.UnaryOp) and isinstance(test.op, ast.Not):
+        return {not x for x in _nonempty_labels(test.operand, name)}
+    t = norm(test)
+    if t == "%s.empty" % name:
+        return {False}
+    if t == "len(%s)" % name or t == "len(%s.index)" % name:
+        return {True}
+    if isinstance(test, ast.Compare) and len(test.ops) == 1 and isinstance(test.comparators[0], ast.Constant):
+        left, op, c = norm(test.left), test.ops[0], test.comparators[0].value
+        if left in ("len(%s)" % name, "len(%s.index)" % name, "%s.shape[0]" % name):
+            if isinstance(op, (ast.Gt, ast.NotEq)) and c == 0 or isinstance(op, ast.GtE) and c == 1:
+                return {True}
+            if isinstance(op, (ast.Eq, ast.LtE)) and c == 0 or isinstance(op, ast.Lt) and c == 1:
+                return {False}
+    if isinstance(test, ast.BoolOp):
+        out = set()
+        if isinstance(test.op, ast.And):
+            if any(True in _nonempty_labels(v, name) for v in test.values):
+                out.add(True)
+        else:
+            if any(False in _nonempty_labels(v, name) for v in test.values):
+                out.add(False)
+        return out
+    return set()
+
+
+def first_row_sites(fi, v):
+    """-> [(subscript node, frame name, def stmt, status)] for `<name>.index[0]`, `<name>.iloc[0]`, `<name>.values[-1]`...
+    where <name> is a local bound to a boolean-mask selection."""
+    rd = ReachingDefs(fi)
+    out = []
+    for s in walk_no_nested(fi.node):
+        if not (isinstance(s, ast.Subscript) and isinstance(s.ctx, ast.Load)):
+            continue
+        idx = s.slice
+        if isinstance(idx, ast.Tuple) and idx.elts:
+            idx = idx.elts[0]
+        if isinstance(idx, ast.UnaryOp) and isinstance(idx.op, ast.USub) and isinstance(idx.operand, ast.Constant):
+            iv = -idx.operand.value if isinstance(idx.operand.value, int) else None
+        elif isinstance(idx, ast.Constant) and isinstance(idx.value, int) and not isinstance(idx.value, bool):
+            iv = idx.value
+        else:
+            continue
+        if iv not in (0, -1):
+            continue
+        b = s.value
+        if not (isinstance(b, ast.Attribute) and b.attr in POS_ATTRS and isinstance(b.value, ast.Name)):
+            continue
+        name = b.value.id
+        defs = [d for d in (rd.at(s, name) or []) if d.value is not None and _is_mask_selection(d.value)]
+        if not defs:
+            continue
+        u = v.node(s)
+        ok = False
+        if u is not None:
+            for c in v.cfg.nodes:
+                if c.kind != "cond" or c is u:
+                    continue
+                for lab in _nonempty_labels(c.ast, name):
+                    if v.edge_guards(c, lab, u):
+                        ok = True
+        out.append((s, name, defs[0].node, "ok" if ok else "open"))
+    return out
+
+
+def check_first_row(ctx, rule, funcs, view, consequence):
+    n = 0
+    for fi in funcs:
+        ctx.saw(fi)
+        v = view(ctx, fi)
+        for s, name, dnode, status in first_row_sites(fi, v):
+            n += 1
+            ctx.count_sites()
+            ctx.check(status == "ok", rule, fi.qualname, s, loc(fi, s),
+                      "%s is a selection by a boolean mask (%s) and may have no rows, but its first/last row is taken without an "
+                      "emptiness test on the path: %s" % (name, norm(dnode)[:70], consequence),
+                      desc="%s: first row of the mask selection %s taken under an emptiness test" % (fi.short, name))
+    return n
